@@ -203,6 +203,17 @@ theorem C06_scsv_first (aesni : Bool) (c c' : Cfg) (b : Built) (h : build aesni 
       · rename_i hc; simpa using hc
       · simp
 
+/-- …as a judged predicate (stream `c06.build`). -/
+theorem C06_build_model_verdict_ok (aesni : Bool) (c : Cfg) : buildVerdict (build aesni c) = "ok" := by
+  unfold buildVerdict
+  cases h : build aesni c with
+  | none => rfl
+  | some p =>
+    obtain ⟨c', b⟩ := p
+    obtain ⟨h1, h2⟩ := C06_scsv_first aesni c c' b h
+    have h2' : b.nextProtos.contains acmeALPN = true := by simpa using h2
+    simp [h1, h2]
+
 /-- Strict SNI: a request that reaches the chain of a site which demands client certificates
 (and has not switched the check off) over TLS was made under the same name as its Host. -/
 theorem C06_clientauth_sni_host_agree (sites : List Casket.VHost.Site) (cfgs : List Cfg)
